@@ -89,6 +89,22 @@ Qed.
 Theorem std_bins_units ll : std_bins O true r ll = map (Rmult r) (std_bins O true 1 ll).
 Proof. unfold std_bins. rewrite max_dist_latlon_scale. apply linspace0_scale. Qed.
 
+(* with the user overrides: max_dist = r m in the unit  <->  max_dist = m in radians; bin_no unchanged *)
+Definition scale_opt (m : option R) : option R := match m with Some x => Some (r * x) | None => None end.
+Theorem std_bins_kw_units ll bin_no max_dist :
+  std_bins_kw O true r ll bin_no (scale_opt max_dist) = map (Rmult r) (std_bins_kw O true 1 ll bin_no max_dist).
+Proof.
+  unfold std_bins_kw. destruct max_dist as [m|]; simpl scale_opt; cbv iota.
+  - apply linspace0_scale.
+  - rewrite max_dist_latlon_scale. apply linspace0_scale.
+Qed.
+Theorem bins_kw_unit_free ll bin_no max_dist :
+  pre_edges O true r (std_bins_kw O true r ll bin_no (scale_opt max_dist))
+  = pre_edges O true 1 (std_bins_kw O true 1 ll bin_no max_dist).
+Proof. rewrite std_bins_kw_units, pre_edges_scaled, pre_edges_unit. reflexivity. Qed.
+Lemma std_bins_kw_none latlon ll : std_bins_kw O latlon r ll None None = std_bins O latlon r ll.
+Proof. reflexivity. Qed.
+
 Theorem default_bins_unit_free ll :
   pre_edges O true r (std_bins O true r ll) = pre_edges O true 1 (std_bins O true 1 ll).
 Proof. rewrite std_bins_units, pre_edges_scaled, pre_edges_unit. reflexivity. Qed.
